@@ -9,7 +9,7 @@ R-REGISTRY    every implementation of the two factory traits is instantiated in 
 R-REQ         in every derive-generated Args::from_vpl_node each field is read under its own name, non-Option fields through a
               `*_req` accessor, Option fields through the optional accessor, `sources` from node.sources; every accessor result passes `?`.
 """
-from . import comp, ir
+from . import comp, grammar, ir
 from .report import m_drop_stmt, m_replace
 
 META = {
@@ -120,11 +120,11 @@ def rules(ck, P):
         for n in ir.walk_nodes(fb["body"]):
             if n.get("k") == "call" and (n.get("q") or "") in NOM_LIT:
                 for a in n.get("a", ()):
-                    a = ir.strip(a)
+                    a = grammar._deconst(a)          # a named constant stands for its literal
                     if a.get("k") == "lit" and a.get("lk") in ("char", "str"):
                         toks.add(a["v"])
-            if n.get("k") == "mcall" and n.get("name") == "contains" and ir.strip(n["recv"]).get("k") == "lit":
-                toks.add(ir.strip(n["recv"])["v"])
+            if n.get("k") == "mcall" and n.get("name") == "contains" and grammar._deconst(n["recv"]).get("k") == "lit":
+                toks.add(grammar._deconst(n["recv"])["v"])
     ck.check(toks == TOKENS, "R-TOKENS", mod, "literal tokens matched by the parser are exactly the documented alphabet %s" % sorted(TOKENS),
              "token alphabet differs: extra %s, missing %s" % (sorted(toks - TOKENS), sorted(TOKENS - toks)), ir.loc(b))
     # character classes: the VPL alphabet is ASCII — every class predicate is an is_ascii_* test, a literal set, or one of nom's ASCII
